@@ -378,9 +378,15 @@ def map_variables(
         for scope in jax.tree_util.tree_leaves(scopes)
       )
       if has_mutable_cols:
+        # the rng counters are shared with the real run below: the pre-run
+        # must not use up its draws.
+        leaves = jax.tree_util.tree_leaves(scopes)
+        rng_counts = [_copy_rng_counts(s.rng_counters) for s in leaves]
         fn(scopes, *args, **kwargs)
         target, _ = repack(scopes)
         target = tuple(map_out_fn(x) for x in target)
+        for s, counts in zip(leaves, rng_counts):
+          _restore_rng_counts(s.rng_counters, counts)
     target = tuple(map_in_fn(unfreeze(x)) for x in target)
     mfilter = True
     if not is_target_out:
